@@ -56,7 +56,10 @@ def gen_cases(tier, seed):
         nsh = len(ls)
         pats = bases.type_patterns(nsh)
         tp = list(pats[(i // 2) % len(pats)])
-        shells, classes = bases.rand_basis(rng, ls, types=tp, emin=0.05, emax_fn=lambda l: 30.0, Kmax=2, Mmax=2, scale=1.0)
+        # centres 1e-8 bohr apart ("near") are not used: the motion rounds coordinates at 1e-16 x |d|, which perturbs such a
+        # relative position by 1e-7 relative (an artefact of the moved input, not of the library)
+        shells, classes = bases.rand_basis(rng, ls, types=tp, emin=0.05, emax_fn=lambda l: 30.0, Kmax=2, Mmax=2, scale=1.0,
+                                           geom=str(rng.choice(["coincident", "collinear", "coplanar", "general", "axis-zero", "far"])))
         if i % 3 == 0:  # the frame every stored reference uses: atoms on the x axis
             for k, s in enumerate(shells):
                 s["c"] = [float(0.9 * k), 0.0, 0.0]
@@ -127,10 +130,10 @@ def run_case(case):
     dm2 = Dinv.T @ dm @ Dinv
     dm2 = 0.5 * (dm2 + dm2.T)
     pts = np.array(case["points"], dtype=float)
-    pts2 = pts @ R.T + d
+    pts2 = np.array([R @ p_ + d for p_ in pts])  # same expression as for the centres: a point on a centre stays exactly on it
     q = np.array([1.0, -2.0, 0.5])
     nuc = np.array([s["c"] for s in shells], dtype=float)
-    nuc2 = nuc @ R.T + d
+    nuc2 = np.array([R @ p_ + d for p_ in nuc])
     Z = np.arange(1.0, len(shells) + 1)
     origin = np.array([0.3, -0.2, 0.4])
     origin2 = R @ origin + d
